@@ -11,11 +11,13 @@
    about `assert_matches1 cfg ctx` and become closed statements about the model of the whole library by one
    application to the C01/C02 lemmas.
      * "the body does not run and the call raises" (`C03_args_guard_partial`) is proved for every callable whose signature has no
-       positional-only parameter (`sig_ok`; refuted with one: `C03_posonly_name_as_keyword_refuted`) and every call whose record
-       of receivers is consistent (`star_offset_ok`, a boolean arithmetic condition that every real call satisfies as far as the
-       harness can make calls; without it the model statement is false for an impossible receiver record:
-       `C03_inconsistent_receiver_refuted`; on the K10 call `self=...` it is false while the conclusion still holds there:
-       `C03_self_by_keyword_refuted` shows (Raise IndexError, [])),
+       positional-only parameter (`sig_ok`; refuted with one: `C03_posonly_name_as_keyword_refuted`) and every call whose receiver
+       is described over ground-truth fields by `recv_known` (Proofs/PedanticPos.v: a method with its receiver, a function / static
+       method, a bound class method; also through an instance); the arithmetic `star_offset_ok` of the model follows from it
+       (star_offset_of_known).  On the K10 call `self=...` the description does not apply, the conclusion holds there all the same:
+       `C03_self_by_keyword_refuted` shows (Raise IndexError, []).
+     * positional values bound to NAMED parameters ("whichever parameter position"): `C03_positional_value_guard_partial` under
+       `recv_consistent` and "no defaulted parameter is filled positionally" (refuted otherwise: `C03_defaulted_positional_refuted`),
      * "what is raised is PedanticTypeCheckException" is FALSE in five regions where another exception
        escapes first - IndexError (self by keyword, '@staticmethod' in the text) or PedanticCallWithArgsException
        (a variadic parameter not spelled "star args", receiver not called self, '@pedantic' in the text of a class method) - and a
@@ -26,7 +28,7 @@
 From Coq Require Import List Arith Bool String ZArith Lia.
 From PV Require Import Base.Exn Base.Values Base.Ann Base.PyCall Model.CheckerCfg Model.Checker Model.PedanticCfg
   Model.Pedantic Model.PedanticEval Spec.Conforms Spec.PedanticSpec
-  Model.GenWrapper Proofs.PedanticBase Proofs.PyCallFacts Proofs.PedanticC03 Proofs.PedanticGen Proofs.PedanticChecker Proofs.PedanticWitness Gen.Pedantic Gen.CheckerTables.
+  Model.GenWrapper Proofs.PedanticBase Proofs.PyCallFacts Proofs.PedanticC03 Proofs.PedanticPos Proofs.PedanticGen Proofs.PedanticChecker Proofs.PedanticWitness Gen.Pedantic Gen.CheckerTables.
 Import ListNotations.
 Close Scope Z_scope.
 Open Scope list_scope.
@@ -38,14 +40,13 @@ Print Assumptions C03_cfg_good.
 
 (* ---------------- relative to any checker, no hypothesis ---------------- *)
 (* if the checker rejects a supplied value (whatever TypeVar bindings it is given), the call raises and the
-   journal of the body is empty.  `star_offset_ok` (a boolean on fn and call) says that the receiver and the positional
-   values the first checking pass skips in front of *args are not more than CPython binds to named parameters - the
-   arithmetic of FunctionCall._num_of_args_bound_to_named_params; it holds for every call the harness can make. *)
+   journal of the body is empty.  `recv_known f c` describes, over ground-truth fields, how the receiver reaches the wrapper and
+   the undecorated callable (method with its receiver / function or static method / bound class method). *)
 Theorem C03_args_guard_relative_partial : forall pc check consumes f c bd b a v,
-  pc_good pc = true -> sig_ok f = true -> star_offset_ok f c = true -> twin_binding f c = Ok b ->
+  pc_good pc = true -> sig_ok f = true -> recv_known f c -> twin_binding f c = Ok b ->
   In (Some a, v) (supplied_of f c b) -> rejected check a v ->
   snd (run pc check consumes f c bd) = [] /\ exists e, fst (run pc check consumes f c bd) = Raise e.
-Proof. intros. eapply args_guard; eassumption. Qed.
+Proof. intros. eapply args_guard; try eassumption. eapply star_offset_of_known; eassumption. Qed.
 Print Assumptions C03_args_guard_relative_partial.
 
 (* `model_binding pc f c` is the binding with which run invokes the body: the hypothesis only speaks about what the body does
@@ -60,10 +61,10 @@ Print Assumptions C03_result_guard_relative.
 (* ---------------- generator functions ---------------- *)
 (* calling the generator function: a rejected supplied value => no generator object, nothing ran *)
 Theorem C03_generator_call_guard_relative_partial : forall pc check consumes f c b a v,
-  pc_good pc = true -> sig_ok f = true -> star_offset_ok f c = true -> twin_binding f c = Ok b ->
+  pc_good pc = true -> sig_ok f = true -> recv_known f c -> twin_binding f c = Ok b ->
   In (Some a, v) (supplied_of f c b) -> rejected check a v ->
   snd (run_gen pc check consumes f c) = [] /\ exists e, fst (run_gen pc check consumes f c) = Raise e.
-Proof. intros. eapply args_guard_gen; eassumption. Qed.
+Proof. intros. eapply args_guard_gen; try eassumption. eapply star_offset_of_known; eassumption. Qed.
 Print Assumptions C03_generator_call_guard_relative_partial.
 
 (* iterating: for EVERY generator body, every yield / send / return type and every sequence of next / send / close
@@ -116,12 +117,13 @@ Section Relative.
   (* C03, first sentence: for every callable whose signature CPython can build (sig_ok), every call, every
      body: a non-conforming supplied value => the call raises, the body has not run *)
   Theorem C03_args_guard_partial : forall pc consumes f c bd,
-    pc_good pc = true -> sig_ok f = true -> star_offset_ok f c = true ->
+    pc_good pc = true -> sig_ok f = true -> recv_known f c ->
     c03_supplied_bad ctx f c = true ->
     snd (run pc check consumes f c bd) = [] /\ exists e, fst (run pc check consumes f c bd) = Raise e.
   Proof.
-    intros pc consumes f c bd G Hsig Hoff H. unfold c03_supplied_bad in H.
+    intros pc consumes f c bd G Hsig Hrk H. unfold c03_supplied_bad in H.
     destruct (twin_binding f c) as [b|] eqn:Eb; [|discriminate].
+    pose proof (star_offset_of_known f c b Eb Hrk) as Hoff.
     apply existsb_exists in H as [[oa v] [Hin Hbad]]. simpl in Hbad.
     destruct (bad_rejected _ _ Hbad) as [a [-> [_ Hrej]]].
     eapply args_guard; eassumption.
@@ -132,7 +134,7 @@ Section Relative.
      three escapes is taken: `self` passed by keyword (K10), '@staticmethod' in the text of a module-level
      function (K2); (a var-positional parameter not spelled *args makes the discipline test fail: K2) *)
   Theorem C03_args_guard_exact_partial : forall pc consumes f c bd,
-    pc_good pc = true -> sig_ok f = true -> star_offset_ok f c = true ->
+    pc_good pc = true -> sig_ok f = true -> recv_known f c ->
     c03_supplied_bad ctx f c = true ->
     assert_uses_kwargs pc f c = Ok tt ->
     (is_instance_method f = true -> wargs c <> []) ->
@@ -140,8 +142,9 @@ Section Relative.
     forallb (fun p => match p_ann p with Some a => supported ctx a | None => true end) (f_params f) = true ->
     run pc check consumes f c bd = (Raise PTypeCheckC, []).
   Proof.
-    intros pc consumes f c bd G Hsig Hoff H Hauk Hinst Hprobe Hsup. unfold c03_supplied_bad in H.
+    intros pc consumes f c bd G Hsig Hrk H Hauk Hinst Hprobe Hsup. unfold c03_supplied_bad in H.
     destruct (twin_binding f c) as [b|] eqn:Eb; [|discriminate].
+    pose proof (star_offset_of_known f c b Eb Hrk) as Hoff.
     apply existsb_exists in H as [[oa v] [Hin Hbad]]. simpl in Hbad.
     destruct (bad_rejected _ _ Hbad) as [a [-> [_ Hrej]]].
     eapply args_guard_exact; try eassumption.
@@ -163,6 +166,22 @@ Section Relative.
     apply andb_true_iff in H as [_ H]. destruct (c_args c) as [|x [|y l]] eqn:Ex; try discriminate.
     destruct (bad_rejected _ _ H) as [a [Ha [_ Hrej]]].
     eapply setter_guard; try eassumption. congruence.
+  Qed.
+
+  (* "whichever parameter position it is in": a positional value that CPython binds to a NAMED parameter and that does not conform
+     => the call raises, the body has not run.  Guards: the receiver is described by `recv_consistent` (the wrapper gets exactly the
+     receiver the undecorated callable gets), and no DEFAULTED parameter is filled positionally (its default would be checked in
+     place of the value: C03_defaulted_positional_refuted).  Where positional calls are not allowed the call is rejected earlier. *)
+  Theorem C03_positional_value_guard_partial : forall pc consumes f c bd b,
+    pc_good pc = true -> sig_ok f = true -> recv_consistent f c ->
+    twin_binding f c = Ok b -> no_defaulted_positional f b = true ->
+    c03_positional_bad ctx f c = true ->
+    snd (run pc check consumes f c bd) = [] /\ exists e, fst (run pc check consumes f c bd) = Raise e.
+  Proof.
+    intros pc consumes f c bd b G Hsig Hrc Hb Hnd H. unfold c03_positional_bad in H. rewrite Hb in H.
+    apply existsb_exists in H as [[oa v] [Hin Hbad]]. simpl in Hbad.
+    destruct (bad_rejected _ _ Hbad) as [a [-> [_ Hrej]]].
+    eapply positional_guard; eassumption.
   Qed.
 
   (* C03, second sentence: a non-conforming produced value never reaches the caller (the hypothesis speaks about the binding the
@@ -206,6 +225,7 @@ End Relative.
 Print Assumptions C03_args_guard_partial.
 Print Assumptions C03_args_guard_exact_partial.
 Print Assumptions C03_setter_guard_partial.
+Print Assumptions C03_positional_value_guard_partial.
 Print Assumptions C03_result_guard.
 Print Assumptions C03_result_guard_exact_partial.
 
@@ -213,7 +233,7 @@ Print Assumptions C03_result_guard_exact_partial.
 (* the hypotheses discharged by the C01 / C02 theorems (Proofs/CheckerTop.v via Proofs/PedanticChecker.v): `run1` is the
    call protocol over the REGENERATED pedantic_cfg with the checker model over the REGENERATED checker tables *)
 Theorem C03_args_guard_closed_partial : forall ctx f c bd,
-  sig_ok f = true -> star_offset_ok f c = true -> c03_supplied_bad ctx f c = true ->
+  sig_ok f = true -> recv_known f c -> c03_supplied_bad ctx f c = true ->
   snd (run1 ctx f c bd) = [] /\ exists e, fst (run1 ctx f c bd) = Raise e.
 Proof.
   intros ctx f c bd Hs Ho H. unfold run1.
@@ -222,7 +242,7 @@ Qed.
 Print Assumptions C03_args_guard_closed_partial.
 
 Theorem C03_args_guard_exact_closed_partial : forall ctx f c bd,
-  sig_ok f = true -> star_offset_ok f c = true -> c03_supplied_bad ctx f c = true ->
+  sig_ok f = true -> recv_known f c -> c03_supplied_bad ctx f c = true ->
   assert_uses_kwargs Gen.Pedantic.pedantic_cfg f c = Ok tt ->
   (is_instance_method f = true -> wargs c <> []) ->
   (forall inst, instance_of f c = Ok inst -> clazz_probe f c inst = Ok tt) ->
@@ -270,6 +290,16 @@ Proof.
 Qed.
 Print Assumptions C03_setter_guard_closed_partial.
 
+Theorem C03_positional_value_guard_closed_partial : forall ctx f c bd b,
+  sig_ok f = true -> recv_consistent f c -> twin_binding f c = Ok b -> no_defaulted_positional f b = true ->
+  c03_positional_bad ctx f c = true ->
+  snd (run1 ctx f c bd) = [] /\ exists e, fst (run1 ctx f c bd) = Raise e.
+Proof.
+  intros ctx f c bd b Hs Hr Hb Hn H. unfold run1.
+  exact (C03_positional_value_guard_partial gcfg ctx (checker1_rejects ctx) _ _ f c bd b C03_cfg_good Hs Hr Hb Hn H).
+Qed.
+Print Assumptions C03_positional_value_guard_closed_partial.
+
 (* ---------------- generator functions, closed ---------------- *)
 (* what the call of a generator function returns: a wrapper whose yield / send / return types are read off the return annotation
    (typing.Generator[Y, S, R] or typing.Iterator[Y] / Iterable[Y] with S = R = None); these are the (yt, st, rt) of `w_run` *)
@@ -296,6 +326,29 @@ Proof.
   intros tv. exact (checker1_rejects noctx yt y tv Hs Hm).
 Qed.
 Print Assumptions C03_generator_bad_yield_closed.
+
+(* a sent value that does not conform to the send type (the wrapper has been advanced before): send() raises
+   PedanticTypeCheckException, the generator is not resumed, the state of the wrapper is unchanged *)
+Theorem C03_generator_bad_send_closed : forall yt st rt body w v,
+  w_init w = true -> supported noctx st = true -> conforms noctx st v = MustNot ->
+  w_send gen_check yt st rt body w v = (WRaise PTypeCheckC, w).
+Proof.
+  intros yt st rt body w v Hi Hs Hm. apply w_send_bad_send; [assumption|]. exact (checker1_rejects noctx st v (w_tv w) Hs Hm).
+Qed.
+Print Assumptions C03_generator_bad_send_closed.
+
+(* the generator returns a value that does not conform to the return type: PedanticTypeCheckException instead of
+   StopIteration(value) *)
+Theorem C03_generator_bad_return_closed : forall yt st rt body w v r g',
+  supported noctx rt = true -> conforms noctx rt r = MustNot ->
+  inner_send body (w_inner w) v = (IStop r, g') ->
+  (w_init w = true -> exists tv', gen_check st v (w_tv w) = (Ok tt, tv')) ->
+  fst (w_send gen_check yt st rt body w v) = WRaise PTypeCheckC.
+Proof.
+  intros yt st rt body w v r g' Hs Hm Hi Hpre. eapply w_send_bad_return; [exact Hi|exact Hpre|].
+  intros tv. exact (checker1_rejects noctx rt r tv Hs Hm).
+Qed.
+Print Assumptions C03_generator_bad_return_closed.
 
 (* the results guard against the conformance relation: whatever next() / send() hand to the caller is not a non-conforming value *)
 Definition res_conforms (yt rt : ann) (r : wres) : Prop :=
@@ -372,29 +425,52 @@ Print Assumptions C03_pedantic_text_refuted.
 (* a positional-only parameter whose NAME is used as a key of **kwargs: the first pass takes that keyword for the parameter, the
    (non-conforming) default that CPython really binds is never checked and the body runs: why `sig_ok` excludes positional-only *)
 Theorem C03_posonly_name_as_keyword_refuted : exists f c bd,
-  star_offset_ok f c = true /\ c03_args_bad ctx0 f c = true /\ fst (run1 ctx0 f c bd) = Ok (VInt 1%Z) /\ snd (run1 ctx0 f c bd) <> [].
+  recv_consistent f c /\ c03_args_bad ctx0 f c = true /\ fst (run1 ctx0 f c bd) = Ok (VInt 1%Z) /\ snd (run1 ctx0 f c bd) <> [].
 Proof.
   exists (func "f" [par a_ PosOnly AInt (Some vx); par 8 VarKw AAny None] plain_text), (kwcall [] [(a_, VInt 1%Z)]), (returns (VInt 1%Z)).
-  repeat split; try reflexivity. vm_compute. discriminate.
+  split; [right; left; repeat split; reflexivity|]. repeat split; try reflexivity. vm_compute. discriminate.
 Qed.
 Print Assumptions C03_posonly_name_as_keyword_refuted.
 
-(* why `star_offset_ok` is a hypothesis: for a receiver record that no Python call produces (the wrapper of a method gets no
-   receiver while the undecorated method gets one) the first pass would skip a *args element *)
-Theorem C03_inconsistent_receiver_refuted : exists f c bd,
-  sig_ok f = true /\ star_offset_ok f c = false /\ c03_args_bad ctx0 f c = true /\ snd (run1 ctx0 f c bd) <> [].
+(* a DEFAULTED parameter filled positionally: _check_type_param checks the default in place of the value the caller wrote:
+   def f(a: int = 0, *args: str); f('bad', 'x') runs the body with a = 'bad' *)
+Theorem C03_defaulted_positional_refuted : exists f c bd,
+  sig_ok f = true /\ recv_consistent f c /\ c03_positional_bad ctx0 f c = true
+  /\ fst (run1 ctx0 f c bd) = Ok (VInt 1%Z) /\ snd (run1 ctx0 f c bd) <> [].
 Proof.
-  exists m_varargs, {| c_recv := []; c_twin_recv := [k_inst]; c_args := [vx]; c_kwargs := [] |}, (returns (VInt 1%Z)).
+  exists (func "f" [par a_ PosOrKw AInt (Some (VInt 0%Z)); par args_ VarPos AStrC None] (tflags true false false true 1)),
+         (poscall [] [vx; vx] []), (returns (VInt 1%Z)).
+  split; [reflexivity|]. split; [right; left; repeat split; reflexivity|]. repeat split; try reflexivity. vm_compute. discriminate.
+Qed.
+Print Assumptions C03_defaulted_positional_refuted.
+
+(* the same through an exempt dunder method of a @pedantic_class: K()('x') on __call__(self, x: int = 0) *)
+Theorem C03_exempt_defaulted_positional_refuted : exists f c bd,
+  sig_ok f = true /\ recv_consistent f c /\ c03_positional_bad ctx0 f c = true
+  /\ fst (run1 ctx0 f c bd) = Ok (VInt 1%Z) /\ snd (run1 ctx0 f c bd) <> [].
+Proof.
+  exists (method "__call__" self_name [par b_ PosOrKw AInt (Some (VInt 0%Z))] (tflags false false false false 0)),
+         (poscall [k_inst] [vx] []), (returns (VInt 1%Z)).
+  split; [reflexivity|]. split.
+  { left. repeat split; try reflexivity. eexists _, _, k_inst. repeat split; reflexivity. }
   repeat split; try reflexivity. vm_compute. discriminate.
 Qed.
-Print Assumptions C03_inconsistent_receiver_refuted.
+Print Assumptions C03_exempt_defaulted_positional_refuted.
+
+(* (not a finding: no Python call produces this record) the receiver description matters to the MODEL: if the wrapper of a method
+   got no receiver while the undecorated method gets one, the first pass would skip a *args element *)
+Example C03_receiver_record_matters :
+  let c := {| c_recv := []; c_twin_recv := [k_inst]; c_args := [vx]; c_kwargs := [] |} in
+  sig_ok m_varargs = true /\ star_offset_ok m_varargs c = false /\ c03_args_bad ctx0 m_varargs c = true
+  /\ snd (run1 ctx0 m_varargs c (returns (VInt 1%Z))) <> [].
+Proof. repeat split; try reflexivity. vm_compute. discriminate. Qed.
 
 (* ---------------- the hypotheses are satisfiable / the model really rejects ---------------- *)
 Example C03_guards_satisfiable :
-  sig_ok f_plain = true /\ star_offset_ok f_plain (kwcall [] [(a_, vx)]) = true /\ c03_args_bad ctx0 f_plain (kwcall [] [(a_, vx)]) = true
+  sig_ok f_plain = true /\ recv_consistent f_plain (kwcall [] [(a_, vx)]) /\ c03_args_bad ctx0 f_plain (kwcall [] [(a_, vx)]) = true
   /\ assert_uses_kwargs Gen.Pedantic.pedantic_cfg f_plain (kwcall [] [(a_, vx)]) = Ok tt
   /\ run1 ctx0 f_plain (kwcall [] [(a_, vx)]) (returns (VInt 1%Z)) = (Raise PTypeCheckC, []).
-Proof. repeat split; reflexivity. Qed.
+Proof. split; [reflexivity|]. split; [right; left; repeat split; reflexivity|]. repeat split; reflexivity. Qed.
 
 Example C03_default_checked :
   c03_args_bad ctx0 (func "f" [par a_ PosOrKw AInt (Some vx)] plain_text) (kwcall [] []) = true
